@@ -86,14 +86,19 @@ package pogreb
 //@ spec func segClosed(dl *datalog, i int) bool = dl.segments[i] != nil ==> allocated(dl.segments[i].file.File) && !hOpen[dl.segments[i].file.File] && dirFid[dl.opts.FileSystem][dl.segments[i].name + ".pmt"] != 0
 //@ spec func segDurableOnDisk(dl *datalog, i int) bool = dl.segments[i] != nil ==> durableName(dl.opts.FileSystem, dl.segments[i].name) && durableName(dl.opts.FileSystem, dl.segments[i].name + ".pmt")
 // segment i is still open and well formed, and is the directory entry of its name
-//@ spec func segOpenOK(dl *datalog, i int) bool = dl.segments[i] != nil ==> segOK(dl.segments[i]) && dirFid[dl.opts.FileSystem][dl.segments[i].name] == fidOf[dl.segments[i].file.File]
+//@ spec func segOpenOK(dl *datalog, i int) bool = dl.segments[i] != nil ==> allocated(dl.segments[i].file.File) && segOK(dl.segments[i]) && dirFid[dl.opts.FileSystem][dl.segments[i].name] == fidOf[dl.segments[i].file.File]
 // h is the handle of a segment of the table; n is the name of the meta file of a segment of the table
 //@ spec func segHandle(dl *datalog, h ref) bool = exists i int :: 0 <= i && i < 32767 && dl.segments[i] != nil && h == ref(dl.segments[i].file.File)
 //@ spec func segMetaName(dl *datalog, n string) bool = exists i int :: 0 <= i && i < 32767 && dl.segments[i] != nil && n == dl.segments[i].name + ".pmt"
 //@ spec func segFileName(dl *datalog, n string) bool = exists i int :: 0 <= i && i < 32767 && dl.segments[i] != nil && n == dl.segments[i].name
 
+// the handles of the table are allocated objects (a typing fact of every Go heap; stated because 'only fresh handles get
+// opened' is how a closed handle is known to stay closed)
+//@ spec func handlesAllocated(dl *datalog) bool = forall i int :: 0 <= i && i < 32767 && dl.segments[i] != nil ==> allocated(dl.segments[i].file.File)
+
 //@ func (dl *datalog) close() (err error) [C02,C03,C09]
 //@   requires inv: dlInv(dl) && dirInjective(dl.opts.FileSystem)
+//@   requires typed: handlesAllocated(dl)
 //@   ensures [C02,C03] closed: err == nil ==> forall i int :: 0 <= i && i < 32767 ==> segClosed(dl, i)
 //@   ensures [C09] durable: err == nil ==> forall i int :: 0 <= i && i < 32767 ==> segDurableOnDisk(dl, i)
 //@   ensures names: err == nil ==> forall n string :: !segMetaName(dl, n) ==> dirFid[dl.opts.FileSystem][n] == old(dirFid[dl.opts.FileSystem][n])
@@ -124,6 +129,7 @@ package pogreb
 // written and closed; [C09] and after every file was made durable.
 //@ func (db *DB) Close() (err error) [C02,C03,C09]
 //@   requires inv: dbFull(db) && dirInjective(db.opts.FileSystem) && idxInDir(db)
+//@   requires typed: handlesAllocated(db.datalog)
 //@   requires noworker: db.cancelBgWorker == nil
 //@   requires lock: db.lock != nil && lockFS[db.lock] == db.opts.FileSystem && lockName[db.lock] == "lock"
 //@   requires unlocked: lockSt[fieldaddr(db, mu)] == 0
@@ -134,3 +140,9 @@ package pogreb
 //@   at call Unlock@2: assert [C02,C03] closed-first: !hOpen[db.index.main.File] && !hOpen[db.index.overflow.File] && dirFid[db.opts.FileSystem]["index.pmt"] != 0 && dirFid[db.opts.FileSystem]["db.pmt"] != 0 && forall i int :: 0 <= i && i < 32767 ==> segClosed(db.datalog, i)
 //@   at call Unlock@2: assert [C09] durable-first: durableName(db.opts.FileSystem, "db.pmt") && durableName(db.opts.FileSystem, "index.pmt") && durableName(db.opts.FileSystem, "main.pix") && durableName(db.opts.FileSystem, "overflow.pix") && forall i int :: 0 <= i && i < 32767 ==> segDurableOnDisk(db.datalog, i)
 //@   modifies *
+
+// ---- metadata structs whose gob encoding is part of the on-disk format (field names and types as in the pinned
+// version: gob matches fields by name, so a rename silently reads zero values from old directories) ----------------
+//@ shape [C02,C18] indexMeta: Level uint8; NumKeys uint32; NumBuckets uint32; SplitBucketIndex uint32; FreeOverflowBuckets []int64
+//@ shape [C02,C18] dbMeta: HashSeed uint32
+//@ shape [C02,C18] segmentMeta: Full bool; PutRecords uint32; DeleteRecords uint32; DeletedKeys uint32; DeletedBytes uint32
